@@ -207,6 +207,8 @@ def view (l : List LItem) : List Entry := (queries l).map entryOf
 /-- no list-level comment (guard of known finding C17-comment-index) -/
 def NoComments (l : List LItem) : Prop := ∀ i ∈ l, i.isQuery = true
 
+instance (l : List LItem) : Decidable (NoComments l) := by unfold NoComments; infer_instance
+
 /-- append of a present simple type moves it to the end; append to `all` is rejected (`none`); `all` replaces
 everything -/
 def specAppend (v : List Entry) (e : Entry) : Option (List Entry) :=
@@ -676,5 +678,365 @@ theorem setItem_refines (m : ML) (raising : Bool) (index : Int) (toks : List Tok
         rcases List.mem_cons.1 hi with rfl | hi
         · rfl
         · exact hc i (List.mem_of_mem_drop (List.mem_filter.1 hi).1)
+
+/-! ### the ordered-set operations keep the set canonical -/
+
+/-- canonical: a simple media type occurs once, `all` stands alone -/
+def CanonV (v : List Entry) : Prop :=
+  (v.filter Entry.isSimple).Nodup ∧ ∀ e ∈ v, e.isAll = true → v = [e]
+
+theorem canonV_nil : CanonV [] := by simp [CanonV]
+
+theorem canonV_single (e : Entry) : CanonV [e] := by
+  refine ⟨?_, ?_⟩
+  · cases h : e.isSimple <;> simp [List.filter_cons, h]
+  · intro e' he' _; simp at he'; rw [he']
+
+theorem filter_erase_of_pos {α : Type} [DecidableEq α] (p : α → Bool) (e : α) (hp : p e = true) :
+    ∀ v : List α, (v.erase e).filter p = (v.filter p).erase e := by
+  intro v
+  induction v with
+  | nil => rfl
+  | cons a r ih =>
+    by_cases hae : a = e
+    · subst hae; simp [List.filter_cons, hp]
+    · have hne : (a == e) = false := by simpa using hae
+      by_cases hpa : p a = true
+      · simp [List.erase_cons, hne, List.filter_cons, hpa, ih]
+      · have hpa' : p a = false := by simpa using hpa
+        simp [List.erase_cons, hne, List.filter_cons, hpa', ih]
+
+theorem isAll_isSimple (e : Entry) (h : e.isAll = true) : e.isSimple = true := by
+  cases e <;> simp_all [Entry.isAll, Entry.isSimple]
+
+theorem specDelete_canon (v v' : List Entry) (n : Cps) (hc : CanonV v) (h : specDelete v n = some v') :
+    CanonV v' := by
+  unfold specDelete at h
+  split at h
+  · simp only [Option.some.injEq] at h
+    subst h
+    refine ⟨?_, ?_⟩
+    · exact List.Nodup.sublist (List.Sublist.filter _ List.erase_sublist) hc.1
+    · intro e he hall
+      have hev : e ∈ v := List.mem_of_mem_erase he
+      have hv := hc.2 e hev hall
+      rw [hv] at he ⊢
+      by_cases hx : e = Entry.simple n
+      · subst hx; simp at he
+      · have : (e == Entry.simple n) = false := by simpa using hx
+        simp [List.erase_cons, this]
+  · simp at h
+
+theorem specAppend_canon (v v' : List Entry) (e : Entry) (hc : CanonV v) (h : specAppend v e = some v') :
+    CanonV v' := by
+  unfold specAppend at h
+  by_cases hall : v.any Entry.isAll = true
+  · simp [hall] at h
+  · have hall' : v.any Entry.isAll = false := by simpa using hall
+    have hno : ∀ x ∈ v, x.isAll = false := by
+      intro x hx
+      have := List.any_eq_false.1 hall' x hx
+      simpa using this
+    simp only [hall', Bool.false_eq_true, if_false] at h
+    by_cases hp : (e.isSimple && v.contains e) = true
+    · simp only [hp, if_true, Option.some.injEq] at h
+      subst h
+      have hs : e.isSimple = true := by simp [Bool.and_eq_true] at hp; exact hp.1
+      have hm : e ∈ v := by simp [Bool.and_eq_true] at hp; exact hp.2
+      refine ⟨?_, ?_⟩
+      · rw [List.filter_append, filter_erase_of_pos _ _ hs]
+        simp only [List.filter_cons, hs, if_true, List.filter_nil]
+        rw [List.nodup_append]
+        refine ⟨List.Nodup.erase _ hc.1, by simp, ?_⟩
+        intro a ha b hb
+        simp at hb; subst hb
+        exact ((List.Nodup.mem_erase_iff hc.1).1 ha).1
+      · intro x hx hxa
+        rcases List.mem_append.1 hx with hx | hx
+        · have := hno x (List.mem_of_mem_erase hx); rw [this] at hxa; simp at hxa
+        · simp at hx; subst hx
+          have := hno x hm; rw [this] at hxa; simp at hxa
+    · have hp' : (e.isSimple && v.contains e) = false := by simpa using hp
+      simp only [hp', Bool.false_eq_true, if_false] at h
+      by_cases ha : e.isAll = true
+      · simp only [ha, if_true, Option.some.injEq] at h
+        subst h; exact canonV_single e
+      · have ha' : e.isAll = false := by simpa using ha
+        simp only [ha', Bool.false_eq_true, if_false, Option.some.injEq] at h
+        subst h
+        refine ⟨?_, ?_⟩
+        · rw [List.filter_append]
+          by_cases hs : e.isSimple = true
+          · have hnm : e ∉ v := by
+              intro hm
+              have : (e.isSimple && v.contains e) = true := by simp [hs, hm]
+              rw [this] at hp'; simp at hp'
+            simp only [List.filter_cons, hs, if_true, List.filter_nil]
+            rw [List.nodup_append]
+            refine ⟨hc.1, by simp, ?_⟩
+            intro a hma b hb
+            simp at hb; subst hb
+            intro hab; subst hab
+            exact hnm (List.mem_filter.1 hma).1
+          · have hs' : e.isSimple = false := by simpa using hs
+            simp [List.filter_cons, hs', hc.1]
+        · intro x hx hxa
+          rcases List.mem_append.1 hx with hx | hx
+          · have := hno x hx; rw [this] at hxa; simp at hxa
+          · simp at hx; subst hx; rw [ha'] at hxa; simp at hxa
+
+theorem nodup_middle' {α : Type} (a : α) (l₁ l₂ : List α) :
+    (l₁ ++ a :: l₂).Nodup ↔ (a :: (l₁ ++ l₂)).Nodup := List.Perm.nodup_iff List.perm_middle
+
+theorem take_drop_succ_sublist {α : Type} (v : List α) (k : Nat) : (v.take k ++ v.drop (k + 1)).Sublist v := by
+  rw [← List.eraseIdx_eq_take_drop_succ]; exact List.eraseIdx_sublist v k
+
+theorem specSetItem_canon (v : List Entry) (k : Nat) (e : Entry) (hc : CanonV v) (hk : k < v.length) :
+    CanonV (specSetItem v k e) := by
+  unfold specSetItem
+  by_cases ha : e.isAll = true
+  · simp only [ha, if_true]; exact canonV_single e
+  · have ha' : e.isAll = false := by simpa using ha
+    simp only [ha', Bool.false_eq_true, if_false]
+    -- a medium `all` in the old list means the old list is `[all]`, so k = 0 and the result is `[e]`
+    have hone : ∀ x ∈ v, x.isAll = true → v.take k = [] ∧ v.drop (k + 1) = [] := by
+      intro x hx hxa
+      have hv := hc.2 x hx hxa
+      rw [hv] at hk ⊢
+      have : k = 0 := by simp at hk; omega
+      subst this; simp
+    by_cases hs : e.isSimple = true
+    · simp only [hs, if_true]
+      refine ⟨?_, ?_⟩
+      · rw [List.filter_append, List.filter_cons]
+        simp only [hs, if_true]
+        rw [nodup_middle', List.nodup_cons]
+        refine ⟨?_, ?_⟩
+        · intro hm
+          rcases List.mem_append.1 hm with hm | hm
+          · have := (List.mem_filter.1 (List.mem_filter.1 hm).1).2; simp at this
+          · have := (List.mem_filter.1 (List.mem_filter.1 hm).1).2; simp at this
+        · rw [← List.filter_append, ← List.filter_append]
+          exact List.Nodup.sublist
+            (List.Sublist.filter _ (List.Sublist.trans List.filter_sublist (take_drop_succ_sublist v k))) hc.1
+      · intro x hx hxa
+        exfalso
+        have hxe : x ≠ e := by intro h; rw [h, ha'] at hxa; simp at hxa
+        have hxv : x ∈ v := by
+          rcases List.mem_append.1 hx with h | h
+          · exact List.mem_of_mem_take (List.mem_filter.1 h).1
+          · rcases List.mem_cons.1 h with h | h
+            · exact absurd h hxe
+            · exact List.mem_of_mem_drop (List.mem_filter.1 h).1
+        obtain ⟨h1, h2⟩ := hone x hxv hxa
+        rw [h1, h2] at hx
+        simp at hx
+        exact hxe hx
+    · have hs' : e.isSimple = false := by simpa using hs
+      simp only [hs', Bool.false_eq_true, if_false]
+      have hset : v.set k e = v.take k ++ e :: v.drop (k + 1) := by
+        rw [List.set_eq_take_append_cons_drop]; simp [hk]
+      refine ⟨?_, ?_⟩
+      · rw [hset, List.filter_append, List.filter_cons]
+        simp only [hs', Bool.false_eq_true, if_false]
+        rw [← List.filter_append]
+        exact List.Nodup.sublist (List.Sublist.filter _ (take_drop_succ_sublist v k)) hc.1
+      · intro x hx hxa
+        exfalso
+        have hxe : x ≠ e := by intro h; rw [h, ha'] at hxa; simp at hxa
+        have hxv : x ∈ v := by
+          rcases List.mem_or_eq_of_mem_set hx with h | h
+          · exact h
+          · exact absurd h hxe
+        obtain ⟨h1, h2⟩ := hone x hxv hxa
+        rw [hset, h1, h2] at hx
+        simp at hx
+        exact hxe hx
+
+/-! ### count, indexing, iteration -/
+
+theorem pyIndex_nat (n i : Nat) : pyIndex n (i : Int) = if i < n then some i else none := by
+  unfold pyIndex
+  have h0 : (0 : Int) ≤ (i : Int) := Int.natCast_nonneg i
+  simp [h0]
+
+theorem length_eq_len (m : ML) (hc : NoComments m.seq) : m.length = m.seq.length := by
+  have hs := noComments_eq m.seq hc
+  unfold ML.length
+  conv => rhs; rw [hs]
+  simp
+
+/-- `item(i)` is the i-th element of the iteration, for every i below `length` (lists without list-level comments) -/
+theorem item_agrees (m : ML) (hc : NoComments m.seq) (i : Nat) (hi : i < m.length) :
+    m.item (i : Int) = .ret (m.iterTypes[i]?) := by
+  have hl := length_eq_len m hc
+  have hs := noComments_eq m.seq hc
+  unfold ML.item ML.iterTypes
+  rw [pyIndex_nat]
+  have hi' : i < m.seq.length := by omega
+  simp only [hi', if_true]
+  generalize hqs : queries m.seq = qs at hs
+  have hiq : i < qs.length := by rw [hs] at hi'; simpa using hi'
+  have : m.seq[i]? = some (.query qs[i]) := by
+    rw [hs]; simp [hiq]
+  rw [this]
+  simp [hiq]
+
+theorem item_at_length (m : ML) : m.item (m.seq.length : Int) = .ret none := by
+  unfold ML.item
+  rw [pyIndex_nat]
+  simp
+
+/-! ## T17.4 — the query parser keeps every token -/
+
+/-- white space is the only thing a parse drops -/
+def notS (t : Tok) : Bool := t.typ != .s
+
+/-- tokens that `ProdParser.parse` handles itself, before the productions -/
+def TT.special : TT → Bool
+  | .comment | .s | .invalid | .eof => true
+  | _ => false
+
+/-- the tokens consumed so far, in order -/
+def QSt.toks (st : QSt) : List Tok := st.items.reverse.map QItem.toTok
+
+theorem parseQ_cons_sig (st : QSt) (t : Tok) (ts : List Tok) (h : t.typ.special = false) :
+    parseQ st (t :: ts) = match stepQ false st t with
+      | .cont st' => parseQ st' ts
+      | .noMatch => .bad
+      | .missing => .bad
+      | .unsupported => .unsupported := by
+  cases ht : t.typ <;> simp [ht, TT.special] at h <;> simp only [parseQ, ht] <;> try rfl
+
+/-- every transition appends exactly the token it consumed -/
+theorem stepQ_emit (p : Bool) (st st' : QSt) (t : Tok) (h : stepQ p st t = .cont st') :
+    ∃ x, st'.items = x :: st.items ∧ x.toTok = t := by
+  unfold stepQ at h
+  cases hs : st.s <;> simp only [hs] at h <;> (repeat' split at h) <;>
+    simp_all [QSt.emit, QItem.toTok] <;> (subst h; simp)
+
+theorem special_cases (t : Tok) :
+    t.typ = .comment ∨ t.typ = .s ∨ t.typ = .invalid ∨ t.typ = .eof ∨ t.typ.special = false := by
+  cases h : t.typ <;> simp [TT.special]
+
+/-- T17.4 (intact): the tokens of an accepted query are exactly the tokens consumed — every feature, value and
+their order; only white space is dropped -/
+theorem parseQ_toks : ∀ (ts : List Tok) (st : QSt) (q : MQ), parseQ st ts = .ok q →
+    q.toks = st.toks ++ ts.filter notS := by
+  intro ts
+  induction ts with
+  | nil =>
+    intro st q h
+    simp only [parseQ] at h
+    split at h
+    · simp only [POut.ok.injEq] at h; subst h; simp [MQ.toks, QSt.toMQ, QSt.toks]
+    · simp at h
+  | cons t ts ih =>
+    intro st q h
+    rcases special_cases t with ht | ht | ht | ht | ht
+    · simp only [parseQ, ht] at h
+      rw [ih _ _ h]
+      simp [QSt.toks, notS, ht, List.filter_cons, QItem.toTok]
+    · simp only [parseQ, ht] at h
+      rw [ih _ _ h]
+      simp [notS, ht, List.filter_cons]
+    · simp [parseQ, ht] at h
+    · simp [parseQ, ht] at h
+    · rw [parseQ_cons_sig st t ts ht] at h
+      have hns : notS t = true := by
+        cases hty : t.typ <;> simp [notS, hty] <;> simp [hty, TT.special] at ht
+      cases hstep : stepQ false st t with
+      | cont st' =>
+        simp only [hstep] at h
+        obtain ⟨x, hx1, hx2⟩ := stepQ_emit false st st' t hstep
+        rw [ih _ _ h]
+        simp [QSt.toks, hx1, hx2, List.filter_cons, hns]
+      | noMatch => simp [hstep] at h
+      | missing => simp [hstep] at h
+      | unsupported => simp [hstep] at h
+
+/-- white space never matters -/
+theorem parseQ_filter_S : ∀ (ts : List Tok) (st : QSt), parseQ st (ts.filter notS) = parseQ st ts := by
+  intro ts
+  induction ts with
+  | nil => intro st; rfl
+  | cons t ts ih =>
+    intro st
+    rcases special_cases t with ht | ht | ht | ht | ht
+    · simp [List.filter_cons, notS, ht, parseQ, ih]
+    · simp [List.filter_cons, notS, ht, parseQ, ih]
+    · simp [List.filter_cons, notS, ht, parseQ]
+    · simp [List.filter_cons, notS, ht, parseQ]
+    · have hns : notS t = true := by
+        cases hty : t.typ <;> simp [notS, hty] <;> simp [hty, TT.special] at ht
+      simp only [List.filter_cons, hns, if_true]
+      rw [parseQ_cons_sig st t _ ht, parseQ_cons_sig st t _ ht]
+      cases hstep : stepQ false st t <;> simp [ih]
+
+theorem QSt_toks_init : ({} : QSt).toks = [] := rfl
+
+/-- T17.4 (round trip for every accepted query): the token-level serialisation of a parsed query parses to the
+same query -/
+theorem parseQ_reparse (ts : List Tok) (q : MQ) (h : parseQ {} ts = .ok q) : parseQ {} q.toks = .ok q := by
+  have h1 := parseQ_toks ts {} q h
+  rw [QSt_toks_init, List.nil_append] at h1
+  rw [h1, parseQ_filter_S]; exact h
+
+/-- the media type stored by the parser is one of `MEDIA_TYPES` -/
+theorem stepQ_mtype (p : Bool) (st st' : QSt) (t : Tok) (h : stepQ p st t = .cont st')
+    (hi : ∀ v, st.mtype = some v → isMediaType v = true) : ∀ v, st'.mtype = some v → isMediaType v = true := by
+  unfold stepQ at h
+  cases hs : st.s <;> simp only [hs] at h <;> (repeat' split at h) <;>
+    simp_all [QSt.emit] <;> (subst h; simp_all)
+
+theorem parseQ_good : ∀ (ts : List Tok) (st : QSt) (q : MQ),
+    (∀ v, st.mtype = some v → isMediaType v = true) → parseQ st ts = .ok q → GoodType q := by
+  intro ts
+  induction ts with
+  | nil =>
+    intro st q hi h
+    simp only [parseQ] at h
+    split at h
+    · simp only [POut.ok.injEq] at h; subst h
+      unfold GoodType QSt.toMQ
+      cases hm : st.mtype with
+      | none => simp
+      | some v =>
+        by_cases hn : st.notSimple = true
+        · simp [hn]
+        · simp [hn]; exact Or.inr (hi v hm)
+    · simp at h
+  | cons t ts ih =>
+    intro st q hi h
+    rcases special_cases t with ht | ht | ht | ht | ht
+    · simp only [parseQ, ht] at h; exact ih _ _ (by simpa using hi) h
+    · simp only [parseQ, ht] at h; exact ih _ _ hi h
+    · simp [parseQ, ht] at h
+    · simp [parseQ, ht] at h
+    · rw [parseQ_cons_sig st t ts ht] at h
+      cases hstep : stepQ false st t with
+      | cont st' =>
+        simp only [hstep] at h
+        exact ih _ _ (stepQ_mtype false st st' t hstep hi) h
+      | noMatch => simp [hstep] at h
+      | missing => simp [hstep] at h
+      | unsupported => simp [hstep] at h
+
+theorem parseQ_goodType (ts : List Tok) (q : MQ) (h : parseQ {} ts = .ok q) : GoodType q :=
+  parseQ_good ts {} q (by intro v hv; simp at hv) h
+
+/-! ## concrete tokens for the machine-checked witnesses (code points written out: `decide` evaluates them) -/
+
+def tIdent (v : Cps) : Tok := { typ := .ident, val := v, text := v }
+def tChar (v : Cps) : Tok := { typ := .char, val := v }
+def tSpace : Tok := { typ := .s, val := [32] }
+def tComment (v : Cps) : Tok := { typ := .comment, val := v }
+def wTv : Cps := [116, 118]
+def wPrint : Cps := [112, 114, 105, 110, 116]
+def wPRINT : Cps := [80, 82, 73, 78, 84]
+def wAnd : Cps := [97, 110, 100]
+def wAll : Cps := [97, 108, 108]
+def wColor : Cps := [99, 111, 108, 111, 114]
+def wComment : Cps := [47, 42, 99, 42, 47]
 
 end CssVerif.Media
